@@ -426,3 +426,6 @@ def run_arith(repo, rep, prop):
     # group starts on) and keeps every forced break (document model: denotation includes where each flat group is measured from)
     from . import docmodel
     rep.floor(prop + '.L.n', docmodel.run(repo, rep, {'normalisation': prop + '.L.n', 'constructors': prop + '.L.n'}), 2)
+    # L.m: the engine interpreted on small concrete documents (both strategies, small widths, ribbon fractions 1 and 0.5)
+    from . import layoutmodel
+    rep.floor(prop + '.L.m', layoutmodel.run(repo, rep, {'C04': prop + '.L.m', prop: prop + '.L.m'}), 2)
